@@ -229,3 +229,11 @@ Theorem C09_clone_out_of_bounds_refuted :
   exists n pst, run_py clone_setup clone_oob_body n = POk pst /\ run_fw clone_setup clone_oob_body n = Unsafe OutOfBounds.
 Proof. exact clone_out_of_bounds. Qed.
 Print Assumptions C09_clone_out_of_bounds_refuted.
+
+(* ... for EVERY number of passes n: 3 + 3n cells are live after n passes while Python's live data is 3 *)
+Theorem C09_leak_reassign_every_pass_refuted : forall n,
+  exists st pst, run_fw leak_reassign_setup leak_reassign_body n = Safe st /\
+                 run_py leak_reassign_setup leak_reassign_body n = POk pst /\
+                 f_live_cells st = 3 + 3 * n /\ p_live pst = 3.
+Proof. exact leak_reassign_all. Qed.
+Print Assumptions C09_leak_reassign_every_pass_refuted.
